@@ -34,8 +34,15 @@ Variable c : cmd.
     ([low_index_mults_any], Escape.v, is the parser's own test: the look-ahead is then switched off) *)
 Definition convx_arg (a : arg) : bool := is_some (a_index a) || (negb (a_last a) && negb (a_tva a)).
 Definition convx : bool :=
-  assert_app c && negb (is_set s_sub_precedence c) && forallb convx_arg (c_args c)
-  && negb (is_set s_allow_missing_pos c) && negb (low_index_mults_any c).
+  assert_app c && negb (is_set s_sub_precedence c) && forallb convx_arg (c_args c).
+(** fourth pass, item (4): low-index multiples ([<sources>... <target>]) and [allow_missing_positional] are in the class.
+    They switch on the LOOK-AHEAD of the positional counter correction at the second-to-last positional (unless that
+    positional has a value terminator): the token goes to the LAST positional when the next token looks like a flag or a
+    subcommand, or when there is none.  An ordinary run of positional values is never at that counter ([posx_ok]); the
+    look-ahead run is a tail of the level (UnparseXTrail.v [wfx_look], tree constructor [YLook]). *)
+Definition is_terminated (pos : N) : bool := match get_pos c pos with Some a => is_some (a_term a) | None => false end.
+Definition lookahead_at (pos : N) : bool :=
+  (low_index_mults_any c || is_set s_allow_missing_pos c) && (pos + 1 =? positional_count c) && negb (is_terminated pos).
 
 (** a token [-<number>] as [parse_short_arg] sees it *)
 Definition negnum_tok (v : bytes) : bool :=
@@ -97,6 +104,7 @@ Definition posx_ok (pst : pstate_t) (pos : N) (vs : list bytes) : bool :=
   && match get_pos c pos with
      | Some a => forallb (fun v => negb (check_terminator a v)) vs && negb (a_last a) && negb (a_tva a)
                  && (negb (a_is_multiple a) || (negb (a_hyphen a) && negb (a_negnum a)))
+                 && negb (lookahead_at pos)
      | None => false end.
 Definition wfx_item (pst : pstate_t) (pos : N) (it : item) : bool :=
   forallb (nosub c) (firstn 1 (render_item it)) &&
